@@ -16,7 +16,7 @@ Inductive ekind : Type :=
 | KEst (ob : cobs).
 
 Record c03case : Type := mkcase {
-  c_kind : ekind; c_init : option ccirc; c_circuits : list ccirc; c_pvals : list cparams;
+  c_kind : ekind; c_np : nat (* parameters per circuit *); c_init : option ccirc; c_circuits : list ccirc; c_pvals : list cparams;
   c_layers : list layer;        (* outermost first *)
   c_legacy : bool;              (* which transpiling-estimator variant to run *)
   c_expected : result (list Q)  (* what the implementation returned *)
@@ -58,13 +58,24 @@ Definition model_run (c : c03case) : result (list Q) :=
 Definition model_objective (c : c03case) : list Q :=
   match c_kind c with
   | KOpSampler ob alpha shots =>
-      map (objective_op csem ccompose cwid cread ccounts_of cagg_op shots ob alpha (c_init c)) (combine (c_circuits c) (c_pvals c))
+      map (objective_op csem ccompose capply cwid cread ccounts_of cagg_op shots ob alpha (c_init c)) (combine (c_circuits c) (c_pvals c))
   | KBits f alpha shots =>
-      map (objective_bits csem ccompose cwid cread ccounts_of cagg_bits shots f alpha (c_init c)) (combine (c_circuits c) (c_pvals c))
-  | KEst ob => map (objective_est csem ccompose cexpect ob (c_init c)) (combine (c_circuits c) (c_pvals c))
+      map (objective_bits csem ccompose capply cwid cread ccounts_of cagg_bits shots f alpha (c_init c)) (combine (c_circuits c) (c_pvals c))
+  | KEst ob => map (objective_est csem capply cexpect ob (c_init c)) (combine (c_circuits c) (c_pvals c))
   end.
 
+(* the case lies in the domain on which the instance describes Qiskit: no default of ClassicalInst.v is used *)
+Definition wf_case (c : c03case) : bool :=
+  wf_call (c_np c) (c_init c) (c_circuits c) (c_pvals c)
+  && match c_kind c with
+     | KOpSampler _ alpha shots => alpha_ok alpha && wf_sampler_call shots (c_init c) (c_circuits c) (c_pvals c)
+     | KBits f alpha shots =>
+         alpha_ok alpha && wf_sampler_call shots (c_init c) (c_circuits c) (c_pvals c)
+         && forallb (fun cc : ccirc => wf_table (fst cc) f) (c_circuits c)
+     | KEst _ => true
+     end.
+
 Definition close (x y : Q) : bool := Qle_bool (Qabs (x - y)) (1 # 1000000000).
-Definition check_case (c : c03case) : bool := result_eqb (list_eqb close) (model_run c) (c_expected c).
+Definition check_case (c : c03case) : bool := wf_case c && result_eqb (list_eqb close) (model_run c) (c_expected c).
 Definition check_objective (c : c03case) : bool := result_eqb (list_eqb close) (Ok (model_objective c)) (c_expected c).
-Definition show_case (c : c03case) : result (list Q) * list Q := (model_run c, model_objective c).
+Definition show_case (c : c03case) : bool * result (list Q) * list Q := (wf_case c, model_run c, model_objective c).
